@@ -228,6 +228,9 @@ struct InputInvariants {
 }
 
 pub struct Executor {
+    /// called right before the run thread is started (the worker tells the
+    /// coordinator that the builder phase of this spec is over)
+    pub on_run_phase: Option<Box<dyn FnMut(bool)>>,
     covers_cache: BTreeMap<(String, usize), Vec<Option<Sym>>>,
     ptc_cache: BTreeMap<String, Option<Sym>>,
     fuc_cache: BTreeMap<String, Sym>,
@@ -260,6 +263,7 @@ fn repo_h1(ds: &PartialDSym) -> Vec<u64> {
 impl Executor {
     pub fn new(thorough: bool) -> Executor {
         Executor {
+            on_run_phase: None,
             covers_cache: BTreeMap::new(),
             ptc_cache: BTreeMap::new(),
             fuc_cache: BTreeMap::new(),
@@ -420,6 +424,9 @@ impl Executor {
             }
         }
 
+        if let Some(f) = self.on_run_phase.as_mut() {
+            f(true);
+        }
         let out = match spec.repr {
             Repr::SimpleDSym => {
                 let ds = s.to_simple();
@@ -452,6 +459,9 @@ impl Executor {
                 })
             }
         };
+        if let Some(f) = self.on_run_phase.as_mut() {
+            f(false);
+        }
         rec.entropy_calls = out.entropy_calls;
         match out.result {
             Err(msg) => {
@@ -609,6 +619,9 @@ impl Executor {
             Repr::SimpleDSym => Input::C(x.to_simple()),
             Repr::PartialDSym => Input::D(x.to_partial()),
         };
+        if let Some(f) = self.on_run_phase.as_mut() {
+            f(true);
+        }
         let out = on_fresh_thread(spec.k0, spec.k1, move || {
             for _ in 0..hist {
                 let _ = is_euclidean(&warm);
@@ -626,6 +639,9 @@ impl Executor {
                 Err(p) => std::panic::resume_unwind(p),
             }
         });
+        if let Some(f) = self.on_run_phase.as_mut() {
+            f(false);
+        }
         rec.entropy_calls = out.entropy_calls;
         let ro = match out.result {
             Err(msg) => {
